@@ -209,7 +209,11 @@ func c05Case(tier string, seed int64, idx int, scratch string) rt.CaseResult {
 	}
 	switch cfg[:1] {
 	case "a":
-		r, m, err := runOnce(dir, dbx.Options{Mode: dbx.Inline}, steps, seqrun.Options{Probe: true})
+		mode := dbx.Inline
+		if idx%8 == 4 {
+			mode = dbx.Grpc // the server application restarts (internal/app instead of the inline constructor)
+		}
+		r, m, err := runOnce(dir, dbx.Options{Mode: mode}, steps, seqrun.Options{Probe: true})
 		if err != nil {
 			c.Violate("open-close-error config=a "+firstWords(err.Error(), 5), err.Error(), map[string]any{"steps": steps})
 			ok = false
